@@ -546,6 +546,9 @@ def _decoder_own():
 
 
 SPECS["C20"]["parts"] = _c20_parts() + [_mem_e2("C20"), _decoder_own()]
+# a header left in a pooled message by an input that failed to decode (TC, AA ... of the junk) ends up in the next locally made response:
+# "TC is not added when the message fits" needs the decoder to leave the pool clean
+SPECS["C09"]["parts"].append(dict(_decoder_own(), name="decoder-pool-hygiene"))
 SPECS["C04"]["parts"].append(_mem_e2("C04"))
 # a name buffer released twice by the decoder makes two live messages share name storage (one request's name in another's answer)
 SPECS["C04"]["parts"].append(_decoder_own())
@@ -608,6 +611,8 @@ SPECS["C18"]["parts"].append(_preempt("transports-preempt", "TestVerifC18", ["zz
 SPECS["C14"]["parts"].append(_preempt("doq-preempt", "TestVerifC14Q", ["zz_verif_c14q_test.go"],
                                       {"quick": {"PAUSE": 1, "DEPTH": 4, "FAULTS": 1}, "thorough": {"PAUSE": 1, "PAUSEHITS": 2, "DEPTH": 6, "FAULTS": 2}}))
 
+# replies of a DoQ / DoH upstream (garbage, half frames, a reflected query ...): no panic, no (nil, nil)
+SPECS["C01"]["parts"].append(dict([dict(p) for p in SPECS["C14"]["parts"] if p["name"] == "doq-doh"][0], name="doq-doh-replies"))
 SPECS["C01"]["parts"].append(_preempt("pipeline-preempt", "TestVerifC05", ["zz_verif_c05_test.go"],
                                       {"quick": {"PAUSE": 1, "DEPTH": 4, "FAULTS": 1, "CALLS": 2}, "thorough": {"PAUSE": 1, "PAUSEHITS": 2, "DEPTH": 6, "FAULTS": 2, "CALLS": 3}}))
 
@@ -637,7 +642,7 @@ def _request_path(pause):
                        engines=E4ENGINES, generate=instrument(ROUTER_SRC), params=params, budget={"quick": 60, "thorough": 600})
 
 
-for _pid in ("C04", "C12", "C20"):
+for _pid in ("C04", "C12", "C20", "C19"):
     SPECS[_pid]["parts"].append(_request_path(True))
 
 # the DoQ listener's accept loop and stream handlers under pause points: overlapping streams of one connection
@@ -667,6 +672,11 @@ SPECS["C15"]["parts"].append(router_part("http-accept", "TestVerifC15HTTPAccept"
 # the regexp matcher is shared by every request goroutine: its free-running race pass also decides C20 for that object
 SPECS["C20"]["parts"].append([dict(p) for p in SPECS["C11"]["parts"] if p["name"] == "concurrent-match"][0])
 
+# the router's own handling of upstream entries (initUpstream) in front of NewUpstream: where does each configured upstream dial?
+SPECS["C17"]["parts"].append(dict(name="router-dial", pkg="app/router", run="TestVerifC17RouterDial", go="go1.26", engines=("report", "refdns", "env", "sched", "choice", "pause", "psync", "vnet"), shards=4, gomaxprocs=4,
+                                  files={"harness/router/zz_verif_c17dial_test.go": "app/router/zz_verif_c17dial_test.go", "harness/router/zz_verif_c17_test.go": "app/router/zz_verif_c17_test.go"},
+                                  generate=instrument(["internal/upstream/upstream.go"], swap={"internal/upstream/upstream.go": "net=vnet"}, selonly=True),
+                                  budget={"quick": 120, "thorough": 120}))
 SPECS["C17"]["parts"].append(router_part("unix", "TestVerifC17Unix", ["zz_verif_c17unix_test.go", "zz_verif_c03_test.go"], shards=1, gomaxprocs=4, budget={"quick": 120, "thorough": 120}))
 
 for _pid in ("C15", "C20"):
